@@ -15,51 +15,53 @@ var ctorTarget = ap.IRI("https://example.com/ctor/target")
 const ctorID = ap.ID("https://example.com/ctor/1")
 
 var ctors = map[string]func(id ap.ID, typ string) ap.Item{
-	"ActivityNew":             func(id ap.ID, typ string) ap.Item { return ap.ActivityNew(id, ap.ActivityVocabularyType(typ), ctorOb) },
-	"ActorNew":                func(id ap.ID, typ string) ap.Item { return ap.ActorNew(id, ap.ActivityVocabularyType(typ)) },
-	"IntransitiveActivityNew": func(id ap.ID, typ string) ap.Item { return ap.IntransitiveActivityNew(id, ap.ActivityVocabularyType(typ)) },
+	"ActivityNew": func(id ap.ID, typ string) ap.Item { return ap.ActivityNew(id, ap.ActivityVocabularyType(typ), ctorOb) },
+	"ActorNew":    func(id ap.ID, typ string) ap.Item { return ap.ActorNew(id, ap.ActivityVocabularyType(typ)) },
+	"IntransitiveActivityNew": func(id ap.ID, typ string) ap.Item {
+		return ap.IntransitiveActivityNew(id, ap.ActivityVocabularyType(typ))
+	},
 	"ObjectNew": func(id ap.ID, typ string) ap.Item {
 		o := ap.ObjectNew(ap.ActivityVocabularyType(typ))
 		o.ID = id
 		return o
 	},
-	"LinkNew": func(id ap.ID, typ string) ap.Item { return ap.LinkNew(id, ap.ActivityVocabularyType(typ)) },
-	"AcceptNew": func(id ap.ID, typ string) ap.Item { return ap.AcceptNew(id, ctorOb) },
-	"AddNew": func(id ap.ID, typ string) ap.Item { return ap.AddNew(id, ctorOb, ctorTarget) },
-	"AnnounceNew": func(id ap.ID, typ string) ap.Item { return ap.AnnounceNew(id, ctorOb) },
-	"BlockNew": func(id ap.ID, typ string) ap.Item { return ap.BlockNew(id, ctorOb) },
-	"CreateNew": func(id ap.ID, typ string) ap.Item { return ap.CreateNew(id, ctorOb) },
-	"DeleteNew": func(id ap.ID, typ string) ap.Item { return ap.DeleteNew(id, ctorOb) },
-	"DislikeNew": func(id ap.ID, typ string) ap.Item { return ap.DislikeNew(id, ctorOb) },
-	"FlagNew": func(id ap.ID, typ string) ap.Item { return ap.FlagNew(id, ctorOb) },
-	"FollowNew": func(id ap.ID, typ string) ap.Item { return ap.FollowNew(id, ctorOb) },
-	"IgnoreNew": func(id ap.ID, typ string) ap.Item { return ap.IgnoreNew(id, ctorOb) },
-	"InviteNew": func(id ap.ID, typ string) ap.Item { return ap.InviteNew(id, ctorOb) },
-	"JoinNew": func(id ap.ID, typ string) ap.Item { return ap.JoinNew(id, ctorOb) },
-	"LeaveNew": func(id ap.ID, typ string) ap.Item { return ap.LeaveNew(id, ctorOb) },
-	"LikeNew": func(id ap.ID, typ string) ap.Item { return ap.LikeNew(id, ctorOb) },
-	"ListenNew": func(id ap.ID, typ string) ap.Item { return ap.ListenNew(id, ctorOb) },
-	"MoveNew": func(id ap.ID, typ string) ap.Item { return ap.MoveNew(id, ctorOb) },
-	"OfferNew": func(id ap.ID, typ string) ap.Item { return ap.OfferNew(id, ctorOb) },
-	"RejectNew": func(id ap.ID, typ string) ap.Item { return ap.RejectNew(id, ctorOb) },
-	"ReadNew": func(id ap.ID, typ string) ap.Item { return ap.ReadNew(id, ctorOb) },
-	"RemoveNew": func(id ap.ID, typ string) ap.Item { return ap.RemoveNew(id, ctorOb, ctorTarget) },
-	"TentativeRejectNew": func(id ap.ID, typ string) ap.Item { return ap.TentativeRejectNew(id, ctorOb) },
-	"TentativeAcceptNew": func(id ap.ID, typ string) ap.Item { return ap.TentativeAcceptNew(id, ctorOb) },
-	"UndoNew": func(id ap.ID, typ string) ap.Item { return ap.UndoNew(id, ctorOb) },
-	"UpdateNew": func(id ap.ID, typ string) ap.Item { return ap.UpdateNew(id, ctorOb) },
-	"ViewNew": func(id ap.ID, typ string) ap.Item { return ap.ViewNew(id, ctorOb) },
-	"ApplicationNew": func(id ap.ID, typ string) ap.Item { return ap.ApplicationNew(id) },
-	"GroupNew": func(id ap.ID, typ string) ap.Item { return ap.GroupNew(id) },
-	"OrganizationNew": func(id ap.ID, typ string) ap.Item { return ap.OrganizationNew(id) },
-	"PersonNew": func(id ap.ID, typ string) ap.Item { return ap.PersonNew(id) },
-	"ServiceNew": func(id ap.ID, typ string) ap.Item { return ap.ServiceNew(id) },
-	"ArriveNew": func(id ap.ID, typ string) ap.Item { return ap.ArriveNew(id) },
-	"TravelNew": func(id ap.ID, typ string) ap.Item { return ap.TravelNew(id) },
-	"QuestionNew": func(id ap.ID, typ string) ap.Item { return ap.QuestionNew(id) },
-	"CollectionNew": func(id ap.ID, typ string) ap.Item { return ap.CollectionNew(id) },
+	"LinkNew":              func(id ap.ID, typ string) ap.Item { return ap.LinkNew(id, ap.ActivityVocabularyType(typ)) },
+	"AcceptNew":            func(id ap.ID, typ string) ap.Item { return ap.AcceptNew(id, ctorOb) },
+	"AddNew":               func(id ap.ID, typ string) ap.Item { return ap.AddNew(id, ctorOb, ctorTarget) },
+	"AnnounceNew":          func(id ap.ID, typ string) ap.Item { return ap.AnnounceNew(id, ctorOb) },
+	"BlockNew":             func(id ap.ID, typ string) ap.Item { return ap.BlockNew(id, ctorOb) },
+	"CreateNew":            func(id ap.ID, typ string) ap.Item { return ap.CreateNew(id, ctorOb) },
+	"DeleteNew":            func(id ap.ID, typ string) ap.Item { return ap.DeleteNew(id, ctorOb) },
+	"DislikeNew":           func(id ap.ID, typ string) ap.Item { return ap.DislikeNew(id, ctorOb) },
+	"FlagNew":              func(id ap.ID, typ string) ap.Item { return ap.FlagNew(id, ctorOb) },
+	"FollowNew":            func(id ap.ID, typ string) ap.Item { return ap.FollowNew(id, ctorOb) },
+	"IgnoreNew":            func(id ap.ID, typ string) ap.Item { return ap.IgnoreNew(id, ctorOb) },
+	"InviteNew":            func(id ap.ID, typ string) ap.Item { return ap.InviteNew(id, ctorOb) },
+	"JoinNew":              func(id ap.ID, typ string) ap.Item { return ap.JoinNew(id, ctorOb) },
+	"LeaveNew":             func(id ap.ID, typ string) ap.Item { return ap.LeaveNew(id, ctorOb) },
+	"LikeNew":              func(id ap.ID, typ string) ap.Item { return ap.LikeNew(id, ctorOb) },
+	"ListenNew":            func(id ap.ID, typ string) ap.Item { return ap.ListenNew(id, ctorOb) },
+	"MoveNew":              func(id ap.ID, typ string) ap.Item { return ap.MoveNew(id, ctorOb) },
+	"OfferNew":             func(id ap.ID, typ string) ap.Item { return ap.OfferNew(id, ctorOb) },
+	"RejectNew":            func(id ap.ID, typ string) ap.Item { return ap.RejectNew(id, ctorOb) },
+	"ReadNew":              func(id ap.ID, typ string) ap.Item { return ap.ReadNew(id, ctorOb) },
+	"RemoveNew":            func(id ap.ID, typ string) ap.Item { return ap.RemoveNew(id, ctorOb, ctorTarget) },
+	"TentativeRejectNew":   func(id ap.ID, typ string) ap.Item { return ap.TentativeRejectNew(id, ctorOb) },
+	"TentativeAcceptNew":   func(id ap.ID, typ string) ap.Item { return ap.TentativeAcceptNew(id, ctorOb) },
+	"UndoNew":              func(id ap.ID, typ string) ap.Item { return ap.UndoNew(id, ctorOb) },
+	"UpdateNew":            func(id ap.ID, typ string) ap.Item { return ap.UpdateNew(id, ctorOb) },
+	"ViewNew":              func(id ap.ID, typ string) ap.Item { return ap.ViewNew(id, ctorOb) },
+	"ApplicationNew":       func(id ap.ID, typ string) ap.Item { return ap.ApplicationNew(id) },
+	"GroupNew":             func(id ap.ID, typ string) ap.Item { return ap.GroupNew(id) },
+	"OrganizationNew":      func(id ap.ID, typ string) ap.Item { return ap.OrganizationNew(id) },
+	"PersonNew":            func(id ap.ID, typ string) ap.Item { return ap.PersonNew(id) },
+	"ServiceNew":           func(id ap.ID, typ string) ap.Item { return ap.ServiceNew(id) },
+	"ArriveNew":            func(id ap.ID, typ string) ap.Item { return ap.ArriveNew(id) },
+	"TravelNew":            func(id ap.ID, typ string) ap.Item { return ap.TravelNew(id) },
+	"QuestionNew":          func(id ap.ID, typ string) ap.Item { return ap.QuestionNew(id) },
+	"CollectionNew":        func(id ap.ID, typ string) ap.Item { return ap.CollectionNew(id) },
 	"OrderedCollectionNew": func(id ap.ID, typ string) ap.Item { return ap.OrderedCollectionNew(id) },
-	"MentionNew": func(id ap.ID, typ string) ap.Item { return ap.MentionNew(id) },
+	"MentionNew":           func(id ap.ID, typ string) ap.Item { return ap.MentionNew(id) },
 }
 
 func init() {
